@@ -8,7 +8,7 @@ from sa.callgraph import CallGraph
 EXPL = ('Decides the clause "the older/same/newer judgement is computed on numeric components": a provenance-typed lint finds every ordering comparison (<, <=, >, >=, min, max, sorted without key) whose operand is a version string '
         '(Software.version, the regex-extracted other version, first-appeared versions from the table, Timeframe slots) and requires both operands to pass through a numeric key -- a function whose result is a tuple/list of int() applied to the '
         'dot-separated components. With that, the comparison is the lexicographic order on integer tuples: total, antisymmetric and transitive by construction. The patch-suffix comparison may stay lexical but must only be reachable after the numeric parts '
-        'compared equal; the consumers (recommendation filter, between_versions, compatibility line, Timeframe) all go through these two sites. The version that enters the comparison is the banner's: for OpenSSH, Dropbear and libssh the capture group of the product pattern that becomes Software.version includes the regular language of dotted decimal versions and is included in [0-9.]+ (automata inclusion, shortest counter-example reported). Not decided: behaviour on malformed version strings.')
+        'compared equal; the consumers (recommendation filter, between_versions, compatibility line, Timeframe) all go through these two sites. The version that enters the comparison is the one in the banner: for OpenSSH, Dropbear and libssh the capture group of the product pattern that becomes Software.version includes the regular language of dotted decimal versions and is included in [0-9.]+ (automata inclusion, shortest counter-example reported). Not decided: behaviour on malformed version strings.')
 
 # expressions that denote version strings, per function (confirmed by reading the regexes / table format)
 VERSION_EXPRS = {
